@@ -37,7 +37,8 @@ RULE = ('program trees: random (depth <= 5, counts 1-4, 1-4 children, leaf kinds
         'programs with volatile counts (random + directed split-preference / measured-parent merges; tree, kind of every '
         'count and the VolatileModificationWarning compared with Model_vol.v); programs observed with the recorded '
         'parent_index of every node (some with two indices swapped by hand); decimal stream: leaf durations k/10, k/5, '
-        'k/3, k/7 ... (ramps whose end value differs from the start value), sample rate a multiple of the denominator, '
+        'k/3, k/7 ... (ramps whose end value differs from the start value; since round 4 also tables with 3-4 entries at '
+        'multiples of 1/den, hold / linear / jump, the value jumping at every inner entry), sample rate a multiple of the denominator, '
         'grid points = correctly rounded doubles of k/rate, samples of to_waveform(program) before / after the rewrite '
         'against the exact rational voltages under the absolute tolerance 2^-30 (counted as inexact_cases). '
         'Stateful / aliasing classes (round 3): the same waveform OBJECT at several leaves (build option share); the same '
@@ -49,6 +50,14 @@ RULE = ('program trees: random (depth <= 5, counts 1-4, 1-4 children, leaf kinds
         'other parameter assignments after the rewrite; directed make_compatible / roll_constant_waveforms shapes on '
         'volatile programs. Observed in addition: .duration of EVERY node afterwards against the duration of what it '
         'contains, a copy taken before the rewrite afterwards, sampling twice, the caller\'s time array. '
+        'Round 4: deterministic to_waveform / from_sequence family (single-child chains r0 x r1 as encapsulate() builds '
+        'them, alone, next to a sibling, through encapsulate / flatten_and_balance and a following make_compatible; the '
+        'constant fold of from_sequence: first part constant or not x later plain part same / other / none x nested '
+        'part (count-1 sub loop, count-2 sub loop, wrapped, all-constant same / other values, repeated leaf) x 3 orders; '
+        'a constant table and a one-part sequence as first part; cleanup dropping measured empty loops); programs built '
+        'top-down (append_child on nodes that already have a parent, optionally with the root duration read after '
+        'every append: incremental cache updates along the whole ancestor chain); for make_compatible on volatile '
+        'programs the duration under two re-evaluations of the volatile parameters before and after. '
         'Non-trivial = the rewrite returned and changed the tree, or failed with an error, on a program with >= 3 '
         'nodes; distinct = distinct canonical JSON of the case.')
 TRUSTED = [
@@ -1768,7 +1777,7 @@ def gen_cases(rng, tier, ctx):
                       'op': rng.choice([['merge'], ['cleanup', True, True], ['flatten', 1], ['flatten', 2]]), 'volatile': True})
     # directed: make_compatible / roll_constant_waveforms on volatile programs (Model_vol.v): a volatile node whose body is
     # merged and stays repeated (definition kept), one that has to be unrolled (frozen), a volatile leaf that is too
-    # short, a volatile count below a merged node (frozen without VolatileModificationWarning: known finding), volatile
+    # short, a volatile count below a merged node (frozen; since /repo 57d5a3e with a VolatileModificationWarning), volatile
     # constant leaves that are rolled (count multiplied, expression scaled)
     for _ in range(60 * mult):
         chans = ['A']
@@ -2132,8 +2141,10 @@ MANIFEST = {
                   'the current values, encapsulate / merge / cleanup / roll_constant_waveforms under every re-evaluation of '
                   'the volatile parameters; make_compatible refines the plain rewrite (pulse, duration, postcondition at the '
                   'current values), never gains a volatile count and follows the parameters under every re-evaluation '
-                  'exactly when it loses none; "no VolatileModificationWarning implies the program still follows its '
-                  'parameters" is refuted for make_compatible (model and code agree: known finding); '
+                  'exactly when it loses none; for the _make_compatible /repo has since 57d5a3e (model switch rp = true) '
+                  '"no VolatileModificationWarning => no volatile count lost => same pulse under every re-evaluation" is '
+                  'proved, the repair is proved to change the warning flag only, and the statement stays refuted for the '
+                  'code as it was (rp = false); '
                   'split preference, freezing and termination proved. The rewrites executed with the recorded parent_index '
                   'refine the pure ones under the bookkeeping invariant and re-establish it (stale index refuted). '
                   'smallest_factor_ge is translated from the source on every run and proved equal to the model and correct. '
@@ -2146,9 +2157,11 @@ MANIFEST = {
     'level_note': 'Trusted: Coq kernel, harness (describer, reference player), leaf waveform sampling (C08), translator. '
                   'The heap (parent pointers, aliasing, duration cache) is C09; here only the recorded index is modelled. '
                   'Binary64 sampling is tested under the tolerance, not proved. The former known finding '
-                  'C06-float-local-time-nested is repaired in /repo (55554c3) and is a violation again. Known finding: '
-                  'make_compatible freezes a volatile count below a merged node without VolatileModificationWarning '
-                  '(C06-make-compatible-silent-volatile-freeze; pulse at the current values preserved).',
+                  'C06-float-local-time-nested is repaired in /repo (55554c3, rest e2c868b: tables with inner entries and '
+                  'the wrapper waveforms get the exact offset) and is a violation again; the former known finding '
+                  'C06-make-compatible-silent-volatile-freeze is repaired (57d5a3e): a volatile count that is lost without '
+                  'a VolatileModificationWarning is a violation again (Coq spec clause + implementation-only duration '
+                  'probe). No known finding is left for C06.',
     'technique': 'Coq proof over hand-written models + source translation of the integer kernel + correspondence check + '
                  'sample comparison on the implementation',
     'design_ref': 'DESIGN.md §5 C06, §4.5, Appendix D2',
